@@ -143,6 +143,13 @@ package b6
 //@   modifies *t
 //@   ensures len(*t) == 0
 
+// SetTags makes the receiver read as the given list (same length, same tags).
+//@ func (*Tags).SetTags
+//@   requires t != nil
+//@   modifies *t
+//@   ensures len(*t) == len(tags)
+//@   ensures forall(i, 0, len(tags), (*t)[i] == tags[i])
+
 //@ func Tags.Clone
 //@   ensures len(result) == len(t) && fresh(result)
 //@   ensures forall(i, 0, len(t), result[i] == t[i])
